@@ -14,7 +14,7 @@
 From Coq Require Import String.
 From Coq Require Import List Ascii ZArith Bool.
 From CGV Require Import Base.PyBase Base.PyVal Base.NxGraph Write.WriteImpl Write.WriteDefs Write.WriteCheck
-     Write.WriteProofs Write.WriteRound.
+     Write.WriteProofs Write.WriteRound Write.WriteDfsSmall.
 Import ListNotations.
 Open Scope Z_scope.
 
@@ -71,6 +71,12 @@ Example C07_small_nonvacuous :
   length (filter (fun g => wf_C07 g && Nat.eqb (class_C07 g (nontree_edges g (dfs_tree g))) 0) small_all) = 2407%nat.
 Proof. exact WriteRound.C07_small_nonvacuous. Qed.
 
+(** BOUNDED: on every connected graph of the family the DFS (model of networkx dfs_successors) from the
+    smallest key visits every node exactly once, tree edges are graph edges, one predecessor per non-root node *)
+Theorem C07_dfs_spanning_small : forall g, In g small_all -> wf_C07 g = true -> dfs_spans g = true.
+Proof. exact dfs_spanning_small. Qed.
+
+Print Assumptions C07_dfs_spanning_small.
 Print Assumptions C07_write_chain_transcript.
 Print Assumptions C07_dfs_path.
 Print Assumptions C07_write_path.
